@@ -130,6 +130,36 @@ CHECKS = {
         "Handler exceptions before the first yield and timeout 0 are not generated (statement silent).",
         "DESIGN.md section 3 C16",
     ),
+    "C05": (
+        "exploration",
+        "property-based testing with an isolated reference decode per datagram: generated valid/truncated/extended/glued/random datagram histories x permutation metamorphic relation, on the protocol, scripted sync/async endpoints and loopback UDP clients",
+        "Every zoo serializer in one-shot mode (incl. incremental ones through the default serialize/deserialize, pickle, stapled, converter): each send produces one datagram that deserializes to the packet; output i equals a fresh-instance decode of datagram i alone; "
+        "truncated/extended/glued datagrams are errors where the one-shot path promises it; permuting the history permutes the outputs.",
+        "Loopback UDP layer: a missing datagram is inconclusive, never a violation.",
+        "DESIGN.md section 3 C05",
+    ),
+    "C06": (
+        "exploration",
+        "property-based fuzzing (Hypothesis; atheris coverage-guided fuzzing in the thorough tier) with an in-target totality + progress oracle over random bytes, mutated valid streams and structurally extreme input",
+        "For every zoo serializer in one-shot, incremental and buffered mode: each call returns a packet or raises the mode's parse error (anything else escaping is a violation), a reported error leaves a strictly shorter remainder, a skip-errors loop terminates; a per-case wall-clock watchdog turns a hang into a violation with the input saved.",
+        "Pickle is only fed through restricted unpicklers; memo-index bombs of the C unpickler are excluded by a pickletools scan (documented pickle caveat); limit >= 4.",
+        "DESIGN.md section 3 C06",
+    ),
+    "C17": (
+        "exploration",
+        "property-based fault injection: exception class x hook position x connection set-up fault as data, next to concurrent healthy clients on a virtual loop (plain TCP, TLS with stdlib peers, UDP); small real-socket RST layer",
+        "One faulty client per case (17 exception shapes incl. ExceptionGroups, every hook position of stream and datagram handlers, transport send/recv failure, missing peer name, TLS handshake garbage/stall/reset/EOF) while 1-3 healthy echo clients have requests in flight: "
+        "serve_forever keeps running, healthy clients get every echo, the faulty TCP connection is closed and on_disconnection matches on_connection, later UDP datagrams from the faulty address start a fresh generator.",
+        "Only Exception subclasses are injected; the RST-after-accept layer uses real sockets and treats timing failures as inconclusive.",
+        "DESIGN.md section 3 C17",
+    ),
+    "C18": (
+        "exploration",
+        "property-based history generation with interval-order oracles: lifecycle call histories with tick-exact offsets on a virtual loop (async servers) and randomized real-thread histories (standalone servers)",
+        "Histories of serve_forever/shutdown/server_close/server_activate/connect over up to 3 tasks or threads; refusals only when the overlapping interval that justifies them exists, shutdown returns only after serving stopped, a stopped server serves again unless closed, listeners closed after server_close, nothing deadlocks.",
+        "Standalone layer: OS-owned schedule with a 30 s watchdog (3x re-run before a hang counts); two listed shapes (S1, S2) are excluded by construction, see DESIGN 7.4.",
+        "DESIGN.md section 3 C18",
+    ),
 }
 
 PENDING = {}
